@@ -329,6 +329,12 @@ func (pg *prog) step() {
 }
 
 func (pg *prog) run() {
+	defer func() {
+		if e := recover(); e != nil {
+			pg.fail("panic", fmt.Sprintf("allocator call panicked: %v\n%s", e, h.Stacks()[:1500]))
+			pg.lives = nil
+		}
+	}()
 	for i := 0; i < pg.c.Ops && !pg.failed; i++ {
 		pg.step()
 		if i%16 == 15 {
@@ -411,9 +417,9 @@ func main() {
 		runCase(r, c)
 		return
 	}
-	nSingle := r.N(60, 1500)
-	nConc := r.N(6, 120)
-	ops := r.N(400, 1200)
+	nSingle := r.N(400, 4000)
+	nConc := r.N(12, 160)
+	ops := r.N(500, 1200)
 	maxSize := r.N(1<<18, 1<<20)
 	idx := 0
 	for si := range specs {
